@@ -18,18 +18,27 @@ theorem setPc_pc (s : State) (t u : Tid) (p : Pc) : (s.setPc t p).pc u = if u = 
 @[simp] theorem setPc_owner (s : State) (t : Tid) (p : Pc) : (s.setPc t p).owner = s.owner := rfl
 @[simp] theorem setPc_succ (s : State) (t : Tid) (p : Pc) : (s.setPc t p).succ = s.succ := rfl
 
+/-- The inductive invariant of Appendix A (`I1`–`I6`) together with the auxiliary
+facts that make it inductive (`cache_some`, `fDone_succ`, `stored_done`, `got_done`). -/
 structure Inv (s : State) : Prop where
+  /-- I1: the lock is owned by `t` exactly while `t` is between acquire and release. -/
   I1 : ∀ t, s.owner = some t ↔ locked (s.pc t) = true
+  /-- while the cache has no entry nobody is past `setdefault` (so the `KeyError` arm of step 5 is dead). -/
   cache_some : s.cache = none → ∀ t, s.pc t = .start ∨ s.pc t = .readNone
+  /-- I2: a cached result is the result of the one normal completion (stability: `done_stable`). -/
   I2 : ∀ r, s.cache = some (.done r) → ∃ t, s.succ = [(t, r)]
+  /-- I3: while a call is inside `f` the cache says `pending` (and nothing has completed yet). -/
   I3 : ∀ t, s.pc t = .inF → s.cache = some .pending ∧ s.succ = []
+  /-- I3 for `fDone`: still `pending`, and the completion recorded is this call's. -/
   fDone_succ : ∀ t v, s.pc t = .fDone v → s.cache = some .pending ∧ s.succ = [(t, v)]
   stored_done : ∀ t v, s.pc t = .stored v → s.cache = some (.done v)
+  /-- I4: at most one normal completion; if there is one it is cached or about to be. -/
   I4 : s.succ.length ≤ 1 ∧ (s.succ ≠ [] → (∃ r, s.cache = some (.done r)) ∨ ∃ t v, s.pc t = .fDone v)
+  /-- I5: a call that returned `r` returned the cached result. -/
   I5 : ∀ t r, s.pc t = .returned r → s.cache = some (.done r)
   got_done : ∀ t r, s.pc t = .got (.done r) → s.cache = some (.done r)
+  /-- I6: a call whose `f` raised is not among the normal completions. -/
   I6 : ∀ t, s.pc t = .raised → ∀ v, (t, v) ∉ s.succ
-
 
 macro "inv_finish" : tactic =>
   `(tactic| (constructor <;> simp only [setPc_cache, setPc_owner, setPc_succ, setPc_pc] <;> grind [locked]))
